@@ -107,11 +107,12 @@ static int run_case(const struct ecimpl *im, int len, int k, int rows, int soff,
 
 /* (e) long blocks: loop counters and offsets beyond 64 KiB and 1 MiB (k = 3, the kernel's natural row count), xorshift data,
  * expected values computed on the fly from the reference multiplication table */
+static int BIG_K = 3; /* 3, or 32 / 40 for the wide-and-long cases of the high-level entries */
 static void run_big(const struct ecimpl *im, int len, int w, int start_aligned)
 {
 	char key[256];
-	int k = 3, rows = w;
-	uint8_t *src[3], *dst[RMAX];
+	int k = BIG_K, rows = w;
+	uint8_t *src[40], *dst[RMAX];
 	size_t tbl_bytes = im->gfni && im->level < 0 ? (size_t)8 * k * rows : ec_tbl_size(k, rows);
 	uint8_t *tbl = g_alloc(tbl_bytes, G_END);
 	for (int i = 0; i < k * rows; i++)
@@ -139,7 +140,7 @@ static void run_big(const struct ecimpl *im, int len, int w, int start_aligned)
 		}
 		V_END();
 	} else {
-		snprintf(key, sizeof key, "%s fault len=%d k=3 rows=%d big", im->name, len, rows);
+		snprintf(key, sizeof key, "%s fault len=%d k=%d rows=%d big", im->name, len, k, rows);
 		v_violation(key, "%s", v_fault_desc());
 		nfail++;
 		g_reset();
@@ -148,9 +149,11 @@ static void run_big(const struct ecimpl *im, int len, int w, int start_aligned)
 	v_eval();
 	for (int r = 0; r < rows; r++)
 		for (int j = 0; j < len; j++) {
-			uint8_t e = rgf_mul(A[r * k], src[0][j]) ^ rgf_mul(A[r * k + 1], src[1][j]) ^ rgf_mul(A[r * k + 2], src[2][j]);
+			uint8_t e = 0;
+			for (int i = 0; i < k; i++)
+				e ^= rgf_mul(A[r * k + i], src[i][j]);
 			if (dst[r][j] != e) {
-				snprintf(key, sizeof key, "%s wrong len=%d k=3 rows=%d big", im->name, len, rows);
+				snprintf(key, sizeof key, "%s wrong len=%d k=%d rows=%d big", im->name, len, k, rows);
 				v_violation(key, "output %d byte %d = %02x expected %02x", r, j, dst[r][j], e);
 				nfail++;
 				r = rows;
@@ -338,6 +341,18 @@ int main(int argc, char **argv)
 						v_nontrivial(v_mix(ii + 4000, bi * 2 + sa));
 					}
 		}
+		/* (e2) wide AND long for the high-level entries: k = 32 / 40 sources, 7 rows, 1 MiB (+37) per block - a wrapper may choose another
+		 * blocking once the stripe is both wide and long */
+		if (!im->width)
+			for (int wv = 0; wv < 2; wv++)
+				if (v_mine(unit++)) {
+					if (v_deadline_hit() || nfail > 60)
+						goto out;
+					BIG_K = wv ? 40 : 32;
+					run_big(im, (1 << 20) + (wv ? 37 : 0), 7, wv);
+					BIG_K = 3;
+					v_nontrivial(v_mix(ii + 4500, wv));
+				}
 		/* (d) the complete multiplication table through this kernel: k=1, c=0..255, every byte value in main loop and tail */
 		if (v_mine(unit++)) {
 			uint8_t *save = M[0];
